@@ -74,7 +74,7 @@ def load_score(filename: PathLike, force_note_ids="keep") -> Score:
             data = response.read()
 
         # Extract the file extension from the URL
-        extension = os.path.splitext(url)[-1]
+        extension = os.path.splitext(url)[-1].lower()
 
         # Create a temporary file
         temp_file = tempfile.NamedTemporaryFile(suffix=extension, delete=True)
